@@ -117,15 +117,6 @@ Fixpoint a_find_reuse (x : Z) (l : list uent) (i : nat) : option nat :=
   | UPass _ _ :: t => a_find_reuse x t (S i)
   end.
 
-(* v.Decl = decl for the entry found by findDeclared (the last one with that name) *)
-Fixpoint set_kind_last (d : list (Z * Z)) (x decl : Z) : list (Z * Z) :=
-  match d with
-  | [] => []
-  | (y, k) :: t =>
-      if (y =? x) && negb (existsb (fun e => fst e =? x) t) then (y, decl) :: t
-      else (y, k) :: set_kind_last t x decl
-  end.
-
 Definition a_declare (a : astate) (decl x : Z) : aout :=
   let split :=
     if (decl =? VariableDecl) || (decl =? FunctionDecl) then a_walk (astack a) decl x
@@ -139,10 +130,10 @@ Definition a_declare (a : astate) (decl x : Z) : aout :=
   | Some (Some (pre, tgt, post)) =>
       match a_find_decl tgt x with
       | Some (_, kk) =>
-          if ((ArgumentDecl <? kk) || (FunctionDecl <? decl)) && negb (kk =? ExprDecl) then ARej
+          if kk =? ExprDecl then AStuck       (* function-expression names: outside the machine *)
+          else if (ArgumentDecl <? kk) || (FunctionDecl <? decl) then ARej
           else
-            let tgt1 := if kk =? ExprDecl then set_fdecl tgt (set_kind_last (fdecl tgt) x decl) else tgt in
-            ARun (mkA (map (add_pass x (fid tgt)) pre ++ tgt1 :: post) (anext a)
+            ARun (mkA (map (add_pass x (fid tgt)) pre ++ tgt :: post) (anext a)
                       (LDecl (fid tgt) x :: alog a))
       | None =>
           let reuse :=
